@@ -16,7 +16,7 @@ S=/dev/shm/seed/$PROP-m$K; rm -rf $S; mkdir -p $S; cp -r /repo/Python $S/Python
 ( cd $S && git apply --unsafe-paths --directory=$S $D 2>/dev/null || patch -s -p1 -d $S -i $D ) || { echo "patch does not apply to /repo copy"; exit 2; }
 cd /verif
 for C in $CHECKS; do
-  R=$(VERIF_TREE=$S VERIF_EVIDENCE_DIR=$S/evidence VERIF_REPLAY_DIR=$S/replays VERIF_STOP_FIRST=1 VERIF_NO_SHRINK=1 VERIF_JOBS=${VERIF_JOBS:-6} VERIF_CHUNK=6 timeout 900 ./verif check $C --tier quick 2>&1 | grep -v "^WARN")
+  R=$(VERIF_TREE=$S VERIF_EVIDENCE_DIR=$S/evidence VERIF_REPLAY_DIR=$S/replays VERIF_STOP_FIRST=1 VERIF_NO_SHRINK=1 VERIF_JOBS=${VERIF_JOBS:-6} VERIF_CHUNK=6 VERIF_WALL_SCALE=${VERIF_WALL_SCALE:-4} timeout 1500 ./verif check $C --tier quick 2>&1 | grep -v "^WARN")
   if echo "$R" | grep -q "VIOLATION property=$C"; then echo "check $C: CAUGHT  $(echo "$R" | grep -m1 'rule=' | cut -c1-200)"; else echo "check $C: MISSED  $(echo "$R" | tail -1 | cut -c1-200)"; fi
 done
 rm -rf $S
